@@ -60,6 +60,15 @@ def check_c08(ctx):
     cases = all_cases(rng, quick)
     chunks = [cases[i:i + 300] for i in range(0, len(cases), 300)]
     recs = [x for ch in par.pmap(_run, chunks) for x in ch]
+    # overlapping requests on one server: the first request's handler waits while a second is served
+    pairs = []
+    for ma in ("slowTool", "slowToolRaises", "slowResource"):
+        for mb in ("toolsCallOk", "toolsCallRaises", "toolsCallUnknown", "resReadOk", "ping", "toolsList", "customOk", "unregistered", "slowTool" if False else "initialize"):
+            ia, ib = rng.sample(server_drv.IDCLASSES[:-1], 2)
+            pairs.append((ma, ia, mb, ib))
+    over = server_drv.run_overlapping_dispatch(pairs)
+    recs += [{k: v for k, v in x.items() if k != "overlap"} for x in over]
+    cases += [{k: x[k] for k in ("kind", "mclass", "pshape", "idc", "typed")} for x in over]
     consts = dict(TREE)
     consts["StdNotifs"] = ("<-", "GenStdNotifs")
     res = validate.validate(tmod, recs, consts, work=os.path.join(ctx.work, "val"), chunk=4000)
